@@ -253,6 +253,71 @@ impl SpdpDiscoveredParticipantData {
     }
 }
 
+#[cfg(feature = "verif_hooks")]
+#[doc(hidden)]
+#[allow(clippy::too_many_arguments)]
+impl ParticipantProxy {
+    /// Verification hook: construct a value from all of its fields.
+    pub fn verif_new(
+        domain_id: Option<DomainId>,
+        domain_tag: String,
+        protocol_version: ProtocolVersion,
+        guid_prefix: GuidPrefix,
+        vendor_id: VendorId,
+        expects_inline_qos: bool,
+        metatraffic_unicast_locator_list: Vec<Locator>,
+        metatraffic_multicast_locator_list: Vec<Locator>,
+        default_unicast_locator_list: Vec<Locator>,
+        default_multicast_locator_list: Vec<Locator>,
+        available_builtin_endpoints: BuiltinEndpointSet,
+        manual_liveliness_count: Count,
+        builtin_endpoint_qos: BuiltinEndpointQos,
+    ) -> Self {
+        Self {
+            domain_id,
+            domain_tag,
+            protocol_version,
+            guid_prefix,
+            vendor_id,
+            expects_inline_qos,
+            metatraffic_unicast_locator_list,
+            metatraffic_multicast_locator_list,
+            default_unicast_locator_list,
+            default_multicast_locator_list,
+            available_builtin_endpoints,
+            manual_liveliness_count,
+            builtin_endpoint_qos,
+        }
+    }
+}
+
+#[cfg(feature = "verif_hooks")]
+#[doc(hidden)]
+impl SpdpDiscoveredParticipantData {
+    /// Verification hook: construct a value from all of its fields.
+    pub fn verif_new(
+        dds_participant_data: ParticipantBuiltinTopicData,
+        participant_proxy: ParticipantProxy,
+        lease_duration: Duration,
+        discovered_participant_list: Vec<InstanceHandle>,
+    ) -> Self {
+        Self {
+            dds_participant_data,
+            participant_proxy,
+            lease_duration,
+            discovered_participant_list,
+        }
+    }
+    /// Verification hook: field access.
+    pub fn verif_dds_participant_data(&self) -> &ParticipantBuiltinTopicData {
+        &self.dds_participant_data
+    }
+    /// Verification hook: field access.
+    pub fn verif_lease_duration(&self) -> Duration {
+        self.lease_duration
+    }
+}
+
 #[cfg(test)]
 mod tests {
     use super::*;
